@@ -58,6 +58,7 @@ AlignOK(x, a, dn, up) ==
 IsPow2(y) == y >= 1 /\ Pow2Up(y) = y
 Pow2OK(x, up, dn) ==
   IF x >= 1 /\ ~(IsPow2(up) /\ up >= x /\ (up = 1 \/ up \div 2 < x)) THEN "align_up_pow2_contract"
+  ELSE IF x <= 0 /\ up # 1 THEN "align_up_pow2_contract"            \* the smallest power of two that is >= a non-positive number is 2^0
   ELSE IF x >= 1 /\ ~(IsPow2(dn) /\ dn <= x /\ 2 * dn > x) THEN "align_down_pow2_contract"
   ELSE "ok"
 
